@@ -37,7 +37,7 @@ CHECKS = {
     "C10": seq(["TestC10", "TestC10Expiry"], qchecks=40, tchecks=150, level="fault_enumeration", per_test={"TestC10Expiry": (2, 2, 8, 12)}),
     "C11": seq(["TestC11"], qchecks=150, tchecks=1500),
     "C12": seq(["TestC12"], qchecks=200, tchecks=1200),
-    "C13": seq(["TestC13", "TestC13Race", "TestC13Idle"], qchecks=400, tchecks=4000, qshards=4, per_test={"TestC13Idle": (8, 2, 16, 12)}),
+    "C13": seq(["TestC13", "TestC13Race", "TestC13Idle", "TestC13Child"], qchecks=400, tchecks=4000, qshards=4, per_test={"TestC13Idle": (8, 2, 16, 12), "TestC13Child": (8, 4, 16, 40)}),
     "C14": seq(["TestC14", "TestC14Window"], qchecks=2, tchecks=8, qshards=4, per_test={"TestC14Window": (3, 3, 9, 12)}),
     "C15": seq(["TestC15"], qchecks=20, tchecks=400, qshards=8),
     "C17": seq(["TestC17", "TestC17Race"], per_test={"TestC17Race": (4, 120, 16, 3000)}),
